@@ -58,6 +58,10 @@ impl<const BITS: usize, const LIMBS: usize> Uint<BITS, LIMBS> {
         // See <https://gmplib.org/manual/Nth-Root-Algorithm>
         let mut decreasing = false;
         loop {
+            #[cfg(recmo_uint_verif)]
+            crate::verif_hooks::step("root");
+            #[cfg(recmo_uint_verif)]
+            crate::verif_hooks::hit(crate::verif_hooks::C::ROOT_ITER);
             // OPT: This could benefit from single-limb multiplication
             // and division.
             //
@@ -67,6 +71,14 @@ impl<const BITS: usize, const LIMBS: usize> Uint<BITS, LIMBS> {
                 .checked_pow(deg_m1)
                 .map_or(Self::ZERO, |power| self / power);
             let iter = (division + deg_m1 * result) / Self::from(degree);
+            #[cfg(recmo_uint_verif)]
+            if iter > result {
+                if decreasing {
+                    crate::verif_hooks::hit(crate::verif_hooks::C::ROOT_DECREASING_STOP);
+                } else if result.saturating_shl(1) < iter {
+                    crate::verif_hooks::hit(crate::verif_hooks::C::ROOT_CAP_APPLIED);
+                }
+            }
             match (decreasing, iter.cmp(&result)) {
                 // Stop when we hit fix point or stop decreasing.
                 (_, Ordering::Equal) | (true, Ordering::Greater) => break result,
